@@ -52,6 +52,12 @@ func c03Funs(thorough bool) []c03Fun {
 		{"own-generator", []string{"f = (a) -> {\n  g = () -> {\n    yield a\n    yield a + 1\n  }\n  r = []\n  for v <- g() r = r + [v + deep(3)]\n  r\n}"}, []string{"3"}},
 		{"early-return-from-loop", []string{"f = (a) -> {\n  for i <- fromto(0, 10) for j <- fromto(0, 10) if i * j == a return [i, j]\n  0\n}"}, []string{"6"}},
 		{"strings-arrays", []string{"f = (a) -> {\n  s = a + \"x\"\n  t = [s, s[0:1]] + [#s]\n  t\n}"}, []string{"\"ab\""}},
+		{"uninitialised-local", []string{"f = (x) -> {\n  if x < 0 sign = \"neg\"\n  if x > 0 sign = \"pos\"\n  sq = x * x\n  [sign, sq]\n}"}, []string{"0", "3"}},
+		{"uninitialised-locals-three", []string{"f = (x) -> {\n  if x < 0 {\n    sa = 1\n    sb = 2\n  }\n  sc = x + 1\n  [sa, sb, sc]\n}"}, []string{"0"}},
+		{"closure-from-iterator-expression", []string{"f = (a) -> {\n  g = id\n  for h <- elems([(x) -> x + a]) g = h\n  before = g(1)\n  s = 0\n  for i <- fromto(0, 100) s = s + i\n  [before, g(1), s]\n}"}, []string{"3"}},
+		{"closure-from-iterator-expression-then-loop-elsewhere", []string{"f = (a) -> {\n  g = id\n  for h <- elems([(x) -> x + a]) g = h\n  before = g(1)\n  t = lsum(100)\n  [before, g(1), t]\n}"}, []string{"3"}},
+		{"closure-from-generator-then-loop-elsewhere", []string{"f = (a) -> {\n  gen = () -> {\n    k = a * 2\n    yield () -> k + a\n  }\n  g = id\n  for h <- gen() g = h\n  before = g()\n  t = lsum(50)\n  for h <- gen() if t > 0 return [before, g(), h()]\n}"}, []string{"3"}},
+		{"closure-yielded-by-own-generator", []string{"f = (a) -> {\n  gen = () -> {\n    k = a * 2\n    yield () -> k + a\n  }\n  g = id\n  for h <- gen() g = h\n  before = g()\n  for i <- fromto(0, 50) t = [i, i]\n  [before, g()]\n}"}, []string{"3"}},
 		{"errors-inside", []string{"f = (a) -> {\n  r = 0\n  for i <- fromto(0, 3) r = r + a / (i + 1)\n  r\n}"}, []string{"12"}},
 	}
 	// every expression body of at most 2 (quick) / 3 (thorough) nodes over the parameter and small constants
@@ -83,6 +89,7 @@ func c03Prelude() []string {
 		"map = (f, iter) -> for e <- iter() yield f(e)",
 		"ab = () -> for x <- fromto(0, 5) if x > 1 return x",
 		"atd = (d, h, v) -> if d <= 0 h(v) else atd(d - 1, h, v)",
+		"lsum = (k) -> {\n  s = 0\n  for i <- fromto(0, k) s = s + i\n  s\n}",
 	}
 }
 
@@ -119,6 +126,17 @@ func c03Contexts(args string) []c03Ctx {
 			return []string{"{\n  for q <- fromto(0, 2) for p <- fromto(0, 2) t = q\n  for q <- elems([1]) t = q\n  " + c + "\n}"}
 		}, same},
 	}
+	// the same call under every number of enclosing frames 0..399, with three frame sizes (every stack alignment)
+	for _, sw := range []struct{ name, def, call string }{
+		{"sweep-depth-3slot", "sw = (d, h, v) -> if d <= 0 h(v) else sw(d - 1, h, v)", "sw(d, f, " + args + ")"},
+		{"sweep-depth-2slot", "sw = (d, v) -> if d <= 0 f(v) else sw(d - 1, v)", "sw(d, " + args + ")"},
+		{"sweep-depth-1slot", "sw = (d) -> if d <= 0 f(" + args + ") else sw(d - 1)", "sw(d)"},
+	} {
+		sw := sw
+		cs = append(cs, c03Ctx{sw.name, func(c string) []string {
+			return []string{sw.def, "{\n  ref = toa(" + c + ")\n  bad = []\n  d = 0\n  while d < 400 {\n    if toa(" + sw.call + ") != ref bad = bad + [d]\n    d = d + 1\n  }\n  [ref == toa(" + c + "), bad]\n}"}
+		}, func(v string) string { return "a:[b:true,a:[]]" }})
+	}
 	for _, d := range []int{1, 2, 5, 50, 200} {
 		d := d
 		cs = append(cs, c03Ctx{fmt.Sprintf("at-depth-%d", d), func(c string) []string {
@@ -131,7 +149,7 @@ func c03Contexts(args string) []c03Ctx {
 func c03Histories() [][2]string {
 	return [][2]string{
 		{"none", ""},
-		{"deep-recursion", "deep(300)"},
+		{"deep-recursion", "deep(700)"},
 		{"small-loop", "for q <- fromto(0, 3) t = q"},
 		{"nested-loops", "for q <- fromto(0, 3) for p <- elems(\"ab\") t = p"},
 		{"abandoned-loop", "ab()"},
@@ -166,7 +184,12 @@ func c03Judge(it c03Item) (sig, detail string) {
 	bkey := fmt.Sprint(it.Thor, it.Fun, it.Arg)
 	v0, ok := c03Baseline[bkey]
 	if !ok {
-		o := sess.Compare(append(append([]string{}, base...), call), sess.Options{RefFuel: 2000000})
+		// KeepGoing: a function outside the described domain (say, one reading a conditionally assigned local) is
+		// not judged against the reference, but it is still executed and is still a candidate for the differential oracle
+		o := sess.Compare(append(append([]string{}, base...), call), sess.Options{RefFuel: 2000000, KeepGoing: true})
+		if len(o.ImplObs) != len(base)+1 {
+			return "", "" // the session did not reach the call (crash or fuel): C05's subject
+		}
 		if o.Sig != "" {
 			return "baseline:" + o.Sig, fmt.Sprintf("function %s called at top level of a fresh session: %s", f.Name, o.Detail)
 		}
